@@ -94,7 +94,7 @@
  *   oncb T <op,with,commas,for,blanks>   when the FIRST callback for token T arrives, run
  *                                this op from inside the callback (after the CB line;
  *                                logged as CBOP).  Several oncb for one token run in order.
- *                                Any op except destroy/proc*/run/flushwrites/reinit/oncb.
+ *                                Any op except destroy, proc, proct, procfd, procsel, run, flushwrites, reinit, oncb.
  * Channel:
  *   cancel                       ares_cancel           (CANCEL begin .. CANCEL end)
  *   destroy                      ares_destroy          (DESTROY begin op .. DESTROY end)
@@ -204,7 +204,7 @@
  *   CANCEL begin|end, DESTROY begin <op|auto>|end, FLUSHWRITES begin|end, REINIT rc=,
  *   SETSERVERS rc=, SETSORTLIST rc=, SETSOCKFUNCS rc=   brackets/results of channel calls
  *   NOW <ms>.<us>                       clock after adv/advus
- *   TIMEOUT ..  PROC/PROCSEL r=[..] w=[..]  PROCDONE [rc=<status>]  RUN iterations=<n> [LIMIT]
+ *   TIMEOUT ..  PROC/PROCSEL r=[..] w=[..]  PROCEND [rc=<status>]  RUN iterations=<n> [LIMIT]
  *   FDS .. GETSOCK .. QLEN .. SERVERS .. OPTS ..          see ops
  *   Socket layer calls made by the library:
  *   SOCKET s<k> af=<4|6> type=<udp|tcp>   |  SOCKET fail af= type= errno=<E..>
